@@ -94,6 +94,7 @@ def run_case(case, ctx):
                     ids = [dsops.ex_id_of(e) for e in got]
                     sequences.append(((fp, hname), ids))
                     ctx.count("passes")
+                    ctx.evaluated()
             if iface == "tfdata":
                 # the natural "pass" of tf.data: iterate the SAME returned
                 # dataset object again (what Keras does every epoch)
@@ -116,6 +117,7 @@ def run_case(case, ctx):
                                 ((fps[0], again),
                                  [dsops.ex_id_of(e) for e in got]))
                             ctx.count("passes")
+                    ctx.evaluated()
             ref_cfg, ref = sequences[0]
             for cfg, ids in sequences[1:]:
                 if ids != ref:
